@@ -15,7 +15,9 @@
 (*   [k |-> "map", key, e]        key: str or int type                     *)
 (*   [k |-> "any"]                                                         *)
 (*   [k |-> "bytes"]  ([]byte)   [k |-> "barr", n]  ([n]byte): binary data *)
-(*        written as a string in Base 64 (RFC 4648 section 4, padded)      *)
+(*        written as a string in Base 64 (RFC 4648 section 4, padded); the *)
+(*        formats base64 base64url base32 base32hex base16 hex choose      *)
+(*        another encoding of RFC 4648, the format array a list of numbers *)
 (*   [k |-> "struct", f]          f: sequence of fields                    *)
 (*        [name (code points), t, omitzero, omitempty, str, casing, fmt]   *)
 (*        fmt: the `format` option ("" when absent)                        *)
@@ -29,7 +31,9 @@
 (* Go values G, always read together with their type                       *)
 (*   bool [b]   str [s (code points)]   int [neg, mag (digits)]            *)
 (*   float [neg, d, n]  the shortest decimal of the float64, in the normal *)
-(*        form of Numbers.tla; -0 is [neg |-> TRUE, d |-> <<>>, n |-> 0]   *)
+(*        form of Numbers.tla; -0 is [neg |-> TRUE, d |-> <<>>, n |-> 0];  *)
+(*        the non-finite values use the codes left over: d = <<>> with     *)
+(*        n = 1 (an infinity, its sign in neg) and n = 2 (NaN)             *)
 (*   slice [nil, e]   array [e]   ptr [nil] / [nil, e]                     *)
 (*   map [nil, m]  m: sequence of <<key, value>> sorted by the key's name  *)
 (*   any [nil] / [nil, dt, e]   dt: the dynamic type                       *)
@@ -60,6 +64,7 @@ BoolT == [k |-> "bool"]
 StrT == [k |-> "str"]
 FloatT == [k |-> "float"]
 AnyT == [k |-> "any"]
+BytesT == [k |-> "bytes"]
 SliceA == [k |-> "slice", e |-> AnyT]
 MapSA == [k |-> "map", key |-> StrT, e |-> AnyT]
 
@@ -96,7 +101,7 @@ IsZero(t, v) ==
       [] t.k = "str" -> v.s = <<>>
       [] t.k \in {"int", "dur"} -> v.mag = <<0>>
       [] t.k = "time" -> v = ZeroTime
-      [] t.k = "float" -> v.d = <<>>
+      [] t.k = "float" -> v.d = <<>> /\ v.n = 0
       [] t.k \in {"slice", "map", "ptr", "any", "bytes"} -> v.nil
       [] t.k = "barr" -> \A i \in 1..t.n : v.b[i] = 0
       [] t.k = "array" -> \A i \in 1..t.n : IsZero(t.e, v.e[i])
@@ -135,6 +140,14 @@ JNull == [t |-> "null"]
 
 FloatLit(v) == IF v.d = <<>> THEN (IF v.neg THEN <<45, 48>> ELSE <<48>>) ELSE EcmaLayout(v.neg, v.d, v.n)
 NumJ(lit, stringify) == IF stringify THEN [t |-> "str", s |-> lit] ELSE [t |-> "num", lit |-> lit]
+
+\* the non-finite floats and their names under the format nonfinite
+NonFinite(v) == v.d = <<>> /\ v.n > 0
+NaNName == <<78, 97, 78>>
+InfName == <<73, 110, 102, 105, 110, 105, 116, 121>>
+NonFiniteName(v) == IF v.n = 2 THEN NaNName ELSE (IF v.neg THEN <<45>> ELSE <<>>) \o InfName
+NaNV == [neg |-> FALSE, d |-> <<>>, n |-> 2]
+InfV(neg) == [neg |-> neg, d |-> <<>>, n |-> 1]
 
 \* null, "", {} and []
 EmptyJ(j) == \/ j.t = "null"
@@ -211,11 +224,83 @@ B64Dec(s) ==
               IF r.ok THEN [ok |-> TRUE, b |-> <<v(1) * 4 + v(2) \div 16, (v(2) % 16) * 16 + v(3) \div 4, (v(3) % 4) * 64 + v(4)>> \o r.b]
               ELSE r
 
+\* ------------------------------------------------------------------ the encodings of RFC 4648 in general
+\* The bytes are read as one string of bits, most significant first, cut into groups of `bits`
+\* bits (the last one filled up with zeros), each group written as one character of the
+\* alphabet; '=' is appended until the length is a multiple of q.
+BitsOf(b) == [i \in 1..(8 * Len(b)) |-> (b[((i - 1) \div 8) + 1] \div (2 ^ (7 - ((i - 1) % 8)))) % 2]
+GroupVal(bs, from, w) == FoldLeft(LAMBDA acc, j : 2 * acc + (IF from + j <= Len(bs) THEN bs[from + j] ELSE 0), 0, [j \in 1..w |-> j])
+
+\* alphabets: value -> character, character -> value (-1: not in the alphabet)
+Enc(f) == CASE f \in {"", "base64"} -> [bits |-> 6, q |-> 4]
+            [] f = "base64url" -> [bits |-> 6, q |-> 4]
+            [] f \in {"base32", "base32hex"} -> [bits |-> 5, q |-> 8]
+            [] f \in {"base16", "hex"} -> [bits |-> 4, q |-> 2]
+AlphaChar(f, i) ==
+    CASE f \in {"", "base64"} -> B64Char(i)
+      [] f = "base64url" -> (IF i = 62 THEN 45 ELSE IF i = 63 THEN 95 ELSE B64Char(i))
+      [] f = "base32" -> (IF i < 26 THEN 65 + i ELSE 24 + i)              \* A-Z 2-7
+      [] f = "base32hex" -> (IF i < 10 THEN 48 + i ELSE 55 + i)           \* 0-9 A-V
+      [] f \in {"base16", "hex"} -> HexDigit(i)                           \* lower case
+AlphaVal(f, c) ==
+    CASE f \in {"", "base64"} -> B64Val(c)
+      [] f = "base64url" -> (IF c = 45 THEN 62 ELSE IF c = 95 THEN 63 ELSE IF c \in {43, 47} THEN -1 ELSE B64Val(c))
+      [] f = "base32" -> (IF c \in 65..90 THEN c - 65 ELSE IF c \in 50..55 THEN c - 24 ELSE -1)
+      [] f = "base32hex" -> (IF c \in 48..57 THEN c - 48 ELSE IF c \in 65..86 THEN c - 55 ELSE -1)
+      \* reading base 16 accepts both cases
+      [] f \in {"base16", "hex"} -> (IF c \in 48..57 THEN c - 48 ELSE IF c \in 97..102 THEN c - 87 ELSE IF c \in 65..70 THEN c - 55 ELSE -1)
+
+BinFormats == {"base64", "base64url", "base32", "base32hex", "base16", "hex"}
+
+BaseEnc(f, b) ==
+    LET e == Enc(f)
+        bs == BitsOf(b)
+        n == (Len(bs) + e.bits - 1) \div e.bits
+        pad == (e.q - (n % e.q)) % e.q IN
+    [g \in 1..n |-> AlphaChar(f, GroupVal(bs, (g - 1) * e.bits, e.bits))] \o [i \in 1..pad |-> 61]
+
+\* [ok, b]: the text is a multiple of q characters; '=' only completes the last quantum; the
+\* characters of a partial quantum carry whole bytes and fewer than `bits` spare bits (whose
+\* value is not looked at: RFC 4648 section 3.5 leaves that open); nothing else - no line
+\* breaks, no second padded quantum
+BaseDec(f, s) ==
+    LET e == Enc(f)
+        pads == {i \in 1..Len(s) : s[i] = 61}
+        dl == IF pads = {} THEN Len(s) ELSE (CHOOSE i \in pads : \A k \in pads : i <= k) - 1
+        c == dl % e.q
+        vals == [i \in 1..dl |-> AlphaVal(f, s[i])]
+        bs == [i \in 1..(dl * e.bits) |-> (vals[((i - 1) \div e.bits) + 1] \div (2 ^ (e.bits - 1 - ((i - 1) % e.bits)))) % 2] IN
+    IF \/ Len(s) % e.q # 0
+       \/ \E i \in (dl + 1)..Len(s) : s[i] # 61
+       \/ Len(s) - dl # (e.q - c) % e.q
+       \/ (c * e.bits) % 8 >= e.bits
+       \/ \E i \in 1..dl : vals[i] < 0
+    THEN [ok |-> FALSE]
+    ELSE [ok |-> TRUE, b |-> [k \in 1..((dl * e.bits) \div 8) |-> GroupVal(bs, (k - 1) * 8, 8)]]
+
+\* binary data as a list of numbers (format array)
+U8T == [k |-> "int", bits |-> 8, signed |-> FALSE]
+NatDigits(v) == LET cs == NatChars(v) IN [i \in 1..Len(cs) |-> cs[i] - 48]
+DigitsNat(d) == FoldLeft(LAMBDA acc, x : 10 * acc + x, 0, d)
+ListT(t) == IF t.k = "bytes" THEN [k |-> "slice", e |-> U8T] ELSE [k |-> "array", n |-> t.n, e |-> U8T]
+ListV(t, v) == LET es == [i \in 1..Len(v.b) |-> [neg |-> FALSE, mag |-> NatDigits(v.b[i])]] IN
+               IF t.k = "bytes" THEN [nil |-> v.nil, e |-> es] ELSE [e |-> es]
+BytesV(t, lv) == LET bs == [i \in 1..Len(lv.e) |-> DigitsNat(lv.e[i].mag)] IN
+                 IF t.k = "bytes" THEN [nil |-> lv.nil, b |-> bs] ELSE [b |-> bs]
+
+\* which `format` options a type knows (those of durations and instants are decided where they
+\* are used; a pointer hands the option on)
+KnownFmt(t, f) ==
+    CASE t.k \in {"ptr", "dur", "time"} -> TRUE
+      [] t.k \in {"bytes", "barr"} -> f \in BinFormats \cup {"array"}
+      [] t.k = "float" -> f = "nonfinite"
+      [] t.k \in {"slice", "map"} -> f \in {"emitnull", "emitempty"}
+      [] OTHER -> FALSE
+
 RECURSIVE Marshal(_, _, _, _)
 Marshal(t, v, o, st) ==
-    \* a `format` option on a type that knows no formats is an error (the formats of byte
-    \* strings, floats, slices and maps are not modelled: the universes do not use them)
-    IF st.fmt # "" /\ t.k \notin {"dur", "time", "ptr"} THEN ERR
+    \* a `format` option the type does not know is an error
+    IF st.fmt # "" /\ ~KnownFmt(t, st.fmt) THEN ERR
     \* the `string` option is for numbers (possibly behind pointers): anything else is an error
     ELSE IF t.k = "bool" THEN (IF st.key \/ st.tag THEN ERR ELSE [t |-> "bool", b |-> v.b])
     ELSE IF t.k = "str" THEN (IF st.tag THEN ERR ELSE [t |-> "str", s |-> v.s])
@@ -227,18 +312,25 @@ Marshal(t, v, o, st) ==
     ELSE IF t.k = "time" THEN
          (IF st.fmt \notin {"unix", "unixmilli", "unixmicro", "unixnano"} THEN ERR   \* (layouts: not modelled)
           ELSE NumJ(DecText(v.neg, v.mag, FmtK(st.fmt)), o.sn \/ st.tag \/ st.key))
+    \* NaN and the infinities have no JSON number: an error, unless the format nonfinite asks
+    \* for their names (as strings)
+    ELSE IF t.k = "float" /\ NonFinite(v) THEN
+         (IF st.fmt = "nonfinite" THEN [t |-> "str", s |-> NonFiniteName(v)] ELSE ERR)
     ELSE IF t.k = "float" THEN NumJ(FloatLit(v), o.sn \/ st.tag \/ st.key)
     ELSE IF t.k = "ptr" THEN (IF v.nil THEN (IF st.key THEN ERR ELSE JNull) ELSE Marshal(t.e, v.e, o, st))
     \* composites are no numbers and no names
     ELSE IF st.tag \/ st.key THEN ERR
     ELSE IF t.k = "any" THEN (IF v.nil THEN JNull ELSE Marshal(v.dt, v.e, o, NoSt))
+    ELSE IF t.k \in {"bytes", "barr"} /\ st.fmt = "array" THEN Marshal(ListT(t), ListV(t, v), o, NoSt)
     ELSE IF t.k = "bytes" /\ v.nil /\ o.nsn THEN JNull
-    ELSE IF t.k \in {"bytes", "barr"} THEN [t |-> "str", s |-> B64Enc(v.b)]
-    ELSE IF t.k = "slice" /\ v.nil /\ o.nsn THEN JNull
+    ELSE IF t.k \in {"bytes", "barr"} THEN [t |-> "str", s |-> BaseEnc(st.fmt, v.b)]
+    \* a nil slice or map is empty; written as null on request: by the option, or - with
+    \* precedence - by the formats emitnull / emitempty
+    ELSE IF t.k = "slice" /\ v.nil /\ (st.fmt = "emitnull" \/ (st.fmt = "" /\ o.nsn)) THEN JNull
     ELSE IF t.k \in {"slice", "array"} THEN
          LET es == [i \in 1..Len(v.e) |-> Marshal(t.e, v.e[i], o, NoSt)] IN
          IF \E i \in 1..Len(es) : IsErr(es[i]) THEN ERR ELSE [t |-> "arr", e |-> es]
-    ELSE IF t.k = "map" /\ v.nil /\ o.nmn THEN JNull
+    ELSE IF t.k = "map" /\ v.nil /\ (st.fmt = "emitnull" \/ (st.fmt = "" /\ o.nmn)) THEN JNull
     ELSE IF t.k = "map" THEN
          \* members in the order of their names (the order of Deterministic; any order otherwise)
          LET ms == [i \in 1..Len(v.m) |-> <<KeyName(t.key, v.m[i][1]), Marshal(t.e, v.m[i][2], o, NoSt)>>] IN
@@ -340,7 +432,7 @@ Unmarshal(t, old, j, o, st) ==
          IF j.t = "null" THEN OK([nil |-> TRUE])
          ELSE LET r == Unmarshal(t.e, IF old.nil THEN Zero(t.e) ELSE old.e, j, o, st) IN
               IF r.ok THEN OK([nil |-> FALSE, e |-> r.v]) ELSE FAIL
-    ELSE IF st.fmt # "" /\ t.k \notin {"dur", "time"} THEN FAIL
+    ELSE IF st.fmt # "" /\ ~KnownFmt(t, st.fmt) THEN FAIL
     ELSE IF t.k \notin {"int", "float", "dur", "time"} /\ st.tag THEN FAIL
     ELSE IF t.k \in {"dur", "time"} /\ FmtK(st.fmt) < 0 THEN FAIL
     ELSE IF t.k \in {"dur", "time"} /\ (t.k = "dur") # (st.fmt \in {"sec", "milli", "micro", "nano"}) THEN FAIL
@@ -354,6 +446,8 @@ Unmarshal(t, old, j, o, st) ==
              r == IF t.k = "dur" THEN DecParse(lit, FmtK(st.fmt), MaxI64, Pow2(63))
                   ELSE DecParse(lit, FmtK(st.fmt), MaxTimeMag, MaxTimeMag) IN
          IF lit = <<>> \/ ~r.ok THEN FAIL ELSE OK(r.v)
+    ELSE IF t.k = "float" /\ st.fmt = "nonfinite" /\ j.t = "str" /\ j.s \in {NaNName, InfName, <<45>> \o InfName} THEN
+         OK(IF j.s = NaNName THEN NaNV ELSE InfV(j.s[1] = 45))
     ELSE IF t.k \in {"int", "float"} THEN
          LET stringify == o.sn \/ st.tag \/ st.key
              lit == IF stringify THEN (IF j.t = "str" THEN j.s ELSE <<>>)
@@ -370,9 +464,12 @@ Unmarshal(t, old, j, o, st) ==
                    ELSE IF nf.d # <<>> /\ nf.n <= -330 THEN OK([neg |-> nf.neg, d |-> <<>>, n |-> 0])
                    ELSE OK([neg |-> nf.neg, d |-> nf.d, n |-> nf.n])
               ELSE FAIL
+    ELSE IF t.k \in {"bytes", "barr"} /\ st.fmt = "array" THEN
+         LET r == Unmarshal(ListT(t), ListV(t, old), j, o, NoSt) IN
+         IF r.ok THEN OK(BytesV(t, r.v)) ELSE FAIL
     ELSE IF t.k \in {"bytes", "barr"} THEN
          IF j.t # "str" THEN FAIL
-         ELSE LET r == B64Dec(j.s) IN
+         ELSE LET r == BaseDec(st.fmt, j.s) IN
               IF ~r.ok THEN FAIL
               ELSE IF t.k = "bytes" THEN OK([nil |-> FALSE, b |-> r.b])
               ELSE IF Len(r.b) = t.n THEN OK([b |-> r.b]) ELSE FAIL
